@@ -18,7 +18,7 @@ var _ DHCPServer = winServer{}
 
 func (winServer) ResetLeases(_ []*dhcpsvc.Lease) (err error)           { return nil }
 func (winServer) GetLeases(_ GetLeasesFlags) (leases []*dhcpsvc.Lease) { return nil }
-func (winServer) getLeasesRef() []*dhcpsvc.Lease                       { return nil }
+func (winServer) cloneLeases() []*dhcpsvc.Lease                        { return nil }
 func (winServer) AddStaticLease(_ *dhcpsvc.Lease) (err error)          { return nil }
 func (winServer) RemoveStaticLease(_ *dhcpsvc.Lease) (err error)       { return nil }
 func (winServer) UpdateStaticLease(_ *dhcpsvc.Lease) (err error)       { return nil }
